@@ -517,7 +517,7 @@ def enum_struct_ir(ctx, rid):
     # early return for non struct/enum
     bt = N.term(fn["body"], syms)
     ok = bt[0] == "call" and bt[1] == "Ok" and bt[2][0][0] == "call" and bt[2][0][1] == "then" \
-        and show(bt[2][0][2][0]) == "(let TypeDef::Composite(_)=%s.type_def||let TypeDef::Variant(_)=%s.type_def)" % (TY, TY) and bt[2][0][2][1][0] == "struct"
+        and show(bt[2][0][2][0]) == "(let TypeDef::Composite($)=%s.type_def||let TypeDef::Variant($)=%s.type_def)" % (TY, TY) and bt[2][0][2][1][0] == "struct"
     ctx.expect(ok, rid, "type-ir/only-struct-enum", fn["sp"], "an IR is built iff the definition is Composite or Variant (Ok(None) otherwise)",
                "result: " + show(bt)[:200])
     # the TypeIR literal
